@@ -222,6 +222,17 @@ func c03DataMessages(c *Ctx) {
 		}
 		var b []byte
 		var wire [][]byte
+		if i%2 == 0 {
+			// the message's very FIRST serialisation goes into a caller-owned scratch buffer which the caller then
+			// reuses: whatever the message memoised must not live in that buffer (after seeded change C03e-1)
+			safely(func() {
+				scratch := make([]byte, 3, len(body)+64)
+				out := msg.AppendBodyTo(scratch)
+				for k := range out[:cap(out)] {
+					out[:cap(out)][k] = 0xEE
+				}
+			})
+		}
 		if p := safely(func() { b = msg.ToBytes(); wire = hsms.VerifFrameBuffers(msg) }); p != nil {
 			c.Violate("property", "tobytes-panic", fmt.Sprintf("ToBytes/buildFrameBuffers panicked: %v", p), replay)
 			continue
@@ -899,6 +910,13 @@ func c03Restamp(c *Ctx) {
 			}
 			bld = bld.WithItem(body.real)
 			desc += " item"
+		}
+		if r.IntN(6) == 0 {
+			// an explicit nil item means "no body" — also on a builder derived from a message that has one
+			// (after seeded change C03e-2)
+			body = c03Body{arg: "nil"}
+			bld = bld.WithItem(nil)
+			desc += " item=nil"
 		}
 		got, gerr := bld.Build()
 		direct, derr := hsms.NewDataMessage(st, f, w, sid, sys, body.real)
